@@ -21,6 +21,7 @@ func init() {
 	register("sysc", syscStream)
 	register("kf.C05-a", kfC05a)
 	register("kf.C09-e.sysc", kfC09eSysc)
+	register("kf.C09-b.sysc", kfC09bSysc)
 }
 
 var syscMu sync.Mutex
@@ -40,6 +41,7 @@ type scOp struct {
 	chunk  bool
 	cond   bool // origin honours If-None-Match: 304 when it names the current ETag
 	cl0    bool // ... and that 304 carries Content-Length: 0 (legal, unusual)
+	cc304  string // ... and this Cache-Control instead of the 200's ("" = the same as the 200's)
 }
 
 var scReqHeaders = [][2]string{
@@ -77,6 +79,9 @@ func syscStream(g *hx.Gen, id int) hx.Case {
 			if st == 200 && g.Chance(60) {
 				o.cond = true
 				o.cl0 = g.Chance(40)
+				if g.Chance(25) {
+					o.cc304 = g.Pick([]string{"no-store", "private", "no-cache", "max-age=0", "max-age=60"})
+				}
 			}
 		}
 		for i := g.Intn(3); i > 0; i-- {
@@ -173,6 +178,10 @@ func syscStream(g *hx.Gen, id int) hx.Case {
 		version++
 		o := scOp{kind: 'O', path: p, status: 200, rerr: -1, chunk: g.Chance(40), cond: true, cl0: g.Chance(60),
 			hdr: [][2]string{{"Cache-Control", "max-age=5"}, {"Content-Type", "text/plain"}, {"ETag", "\"e" + hx.I(version) + "\""}}}
+		if g.Chance(30) {
+			// the 304 forbids what the 200 allowed: the entry must not be served from the cache afterwards
+			o.cc304 = g.Pick([]string{"no-store", "private", "no-cache", "max-age=0", "s-maxage=0"})
+		}
 		o.body = []byte("body-" + p + "-v" + hx.I(version) + "-" + g.Str("abcdef", 24))
 		r := scOp{kind: 'R', method: "GET", path: p}
 		ops := []scOp{o, r, {kind: 'T', dt: 6 + g.Intn(60)}, r, r, {kind: 'T', dt: 1 + g.Intn(3)}, r}
@@ -242,6 +251,18 @@ func kfC09eSysc(g *hx.Gen, id int) hx.Case {
 	return syscRun("kf.C09-e.sysc", id, 0, ops)
 }
 
+// C09-b seen from C05: the revalidation of a stale entry is answered 304 with a Cache-Control that forbids
+// storing; the client (which sent no validator) is handed the bare 304 instead of the stored body
+func kfC09bSysc(g *hx.Gen, id int) hx.Case {
+	syscMu.Lock()
+	defer syscMu.Unlock()
+	p := "kf9b" + hx.I(id)
+	ops := []scOp{{kind: 'O', path: p, status: 200, cond: true, cc304: []string{"no-store", "private"}[id%2], rerr: -1,
+		hdr: [][2]string{{"Cache-Control", "max-age=5"}, {"ETag", "\"e1\""}}, body: []byte("body-" + p + "-v1")},
+		{kind: 'R', method: "GET", path: p}, {kind: 'T', dt: 6}, {kind: 'R', method: "GET", path: p}, {kind: 'R', method: "GET", path: p}}
+	return syscRun("kf.C09-b.sysc", id, 0, ops)
+}
+
 func syscRun(stream string, id int, force int, ops []scOp) hx.Case {
 	in := []string{hx.I(force), hx.I(len(ops))}
 	for _, o := range ops {
@@ -253,7 +274,7 @@ func syscRun(stream string, id int, force int, ops []scOp) hx.Case {
 			for _, kv := range o.hdr {
 				in = append(in, hx.X(kv[0]), hx.X(kv[1]))
 			}
-			in = append(in, hx.X(string(o.body)), hx.B(o.chunk), hx.I(o.rerr), hx.B(o.cond), hx.B(o.cl0))
+			in = append(in, hx.X(string(o.body)), hx.B(o.chunk), hx.I(o.rerr), hx.B(o.cond), hx.B(o.cl0), hx.X(o.cc304))
 		case 'R', 'A':
 			in = append(in, string(o.kind), hx.X(o.method), hx.X(o.path), hx.I(len(o.hdr)))
 			for _, kv := range o.hdr {
@@ -294,9 +315,15 @@ func syscRun(stream string, id int, force int, ops []scOp) hx.Case {
 				if inm := req.Header.Get("If-None-Match"); etag != "" && inm == etag {
 					h := [][2]string{}
 					for _, kv := range o.hdr {
+						if kv[0] == "Cache-Control" && o.cc304 != "" {
+							continue
+						}
 						if kv[0] == "ETag" || kv[0] == "Cache-Control" {
 							h = append(h, kv)
 						}
+					}
+					if o.cc304 != "" {
+						h = append(h, [2]string{"Cache-Control", o.cc304})
 					}
 					if o.cl0 {
 						h = append(h, [2]string{"Content-Length", "0"})
